@@ -130,6 +130,41 @@ def h3_stream(role, stream_class, maxlen, pieces, prefix):
     return run
 
 
+CL_SPELLINGS = [b"0", b"3", b"+3", b"1_0", b" 7", b"-1", b"", b"007", b"9" * 4300, b"9" * 4301, b"1" * 20000, b"\xef\xbc\x91"]
+
+
+def h3_content_length(role):
+    """header lists whose content-length is one of the spellings that int() and the HTTP grammar treat
+    differently (signs, underscores, blanks, non-ASCII digits, more digits than int() converts)"""
+
+    def run():
+        h3 = _h3()
+        from aioquic.quic.events import StreamDataReceived
+
+        is_client = role == "client"
+        install_nondet_qpack(is_client)
+        base = hm.IdealQpack.on_header
+        value = CL_SPELLINGS[sx.Choice("content_length_spelling", len(CL_SPELLINGS))]
+
+        def on_header(dec, sid, data):
+            return base(dec, sid, data) + [(b"content-length", value)]
+
+        hm.IdealQpack.on_header = staticmethod(on_header)
+        quic = hm.FakeQuic(is_client)
+        conn = h3.H3Connection(quic)
+        if is_client:
+            conn.send_headers(0, list(GOOD_REQ), end_stream=True)
+        body = sx.Bytes("body", 3)
+        B = sx.BufferClass()
+        buf = B(capacity=16)
+        buf.push_bytes(b"\x01\x02\x00\x00\x00")
+        buf.push_uint8(sx.length_of(body))
+        buf.push_bytes(body)
+        feed(conn, quic, [StreamDataReceived(data=buf.data, end_stream=sx.Bool("fin"), stream_id=0)])
+
+    return run
+
+
 def h3_datagram(role, maxlen):
     def run():
         h3 = _h3()
@@ -170,6 +205,7 @@ def obligations(tier):
     for role in ("client", "server"):
         for cls, prefix, pieces, n in [("request", "none", 1, n1), ("request", "none", 2, n2), ("uni", "none", 1, n1), ("uni", "none", 2, n2), ("uni", "settings", 1, n1), ("control_more", "settings", 1, n1), ("uni", "request", 1, n1), ("request", "sent_fin", 1, n2)]:
             obs.append(Ob("C16.h3.%s.%s.%s.p%d" % (role, cls, prefix, pieces), h3_stream(role, cls, n, pieces, prefix), shims, enc, bounds="every byte string of length <= %d delivered in %d piece(s) with or without FIN on a %s stream after prefix '%s'; every QPACK outcome" % (n, pieces, cls, prefix), stubs=["pylsqpack -> ideal nondeterministic QPACK", "QuicConnection -> recorder"], env=hm.patched_qpack, budget_s=2400 if T else 280, max_decisions=1200))
+        obs.append(Ob("C16.h3.%s.content_length" % role, h3_content_length(role), shims, enc + [P + "validate_headers", P + "H3Connection._check_content_length"], bounds="a HEADERS frame whose content-length is any of %d spellings (signs, underscore, blank, empty, leading zeros, non-ASCII digit, 4300/4301/20000 digits) followed by a DATA frame with a symbolic body of <= 3 bytes, with or without FIN" % len(CL_SPELLINGS), stubs=["pylsqpack -> ideal nondeterministic QPACK", "QuicConnection -> recorder"], env=hm.patched_qpack, budget_s=280, max_decisions=1200))
         obs.append(Ob("C16.h3.%s.datagram" % role, h3_datagram(role, 10), shims, enc, bounds="every datagram payload of length <= 10", env=hm.patched_qpack, budget_s=200))
         obs.append(Ob("C16.h0.%s" % role, h0_stream(role, 6 if T else 5), shims, ["aioquic.h0.connection.H0Connection.handle_event"], bounds="every byte string of length <= %d in two pieces, with or without FIN" % (6 if T else 5), budget_s=900 if T else 280, max_decisions=900))
     return obs
